@@ -1,4 +1,5 @@
 """C13 — correspondence of BitArray (npstructures/bitarray.py) with the Coq model Model/BitArr.v."""
+import vlib
 from vlib import show, parse, oracle, parse2, guarded
 
 THEOREMS = "Props/C13.v"
@@ -13,6 +14,10 @@ RULE = ("b in {1,2,4,8,16,32}; lengths 0..3k+1 and 3k-1,3k,3k+1,5k+3 (k=64/b) (t
         "boundary sizes and a seeded sample of the others (thorough: all); non-trivial = more than one element and not all zero; "
         "distinct = distinct protocol line")
 
+
+
+def translator_tie():
+    return vlib.translator_tie(["bits"])
 
 def run(R, tier, rng):
     import numpy as np
